@@ -109,6 +109,11 @@ func randBeh(c *hx.Ctx, T int64, val int, honPct int) beh {
 }
 
 func gen(c *hx.Ctx) {
+	// 0. real-scheduler stress (oracle-only): K senders released from a barrier on many fresh pools, max handlers <= N
+	for _, n := range []int{1, 2, 3} {
+		c.Emit("stress %d %d %d", n, n+2, c.Budget(1500, 12000))
+		c.Count("stress_lines")
+	}
 	// 1. exhaustive single-task sweep: N=1, every sequence of per-attempt behaviours from a 12-letter alphabet
 	{
 		const T = 1000
@@ -374,6 +379,31 @@ func gen(c *hx.Ctx) {
 		}
 		emitHead(c, fmt.Sprintf("popts %s basecancel %d", popts, X), nil, tasks)
 		c.Count("base_ctx_cancelled")
+	}
+	// 3g. accepted tasks wait in taskChan for LONGER than their own T before a dispatcher picks them up (all N dispatchers
+	// busy with long handlers; queue not full or discardOnBusy false); their handlers then succeed quickly: T counts from the
+	// attempt's start, not from Send
+	for i := 0; i < c.Budget(150, 2000); i++ {
+		n := 1 + c.Rng.Intn(3)
+		var tasks []gtask
+		var tm int64 = int64(c.Rng.Intn(10))
+		long := int64(6000 + c.Rng.Intn(6000))
+		for k := 0; k < n; k++ {
+			tasks = append(tasks, gtask{k % 2, tm, 0, 1, false, true, []beh{{long + int64(c.Rng.Intn(500)), true, 5 + k, 0}}})
+			tm += int64(1 + c.Rng.Intn(30))
+		}
+		for k := 0; k < 1+c.Rng.Intn(n+1); k++ {
+			T := []int64{500, 1000, 2000}[c.Rng.Intn(3)]
+			R := 1 + c.Rng.Intn(2)
+			bs := []beh{{int64(50 + c.Rng.Intn(300)), c.Rng.Bool(), 40 + k, 0}, {100, true, 60 + k, 0}}
+			if c.Rng.Intn(4) == 0 {
+				bs[0].e = errKinds[c.Rng.Intn(len(errKinds))]
+			}
+			tasks = append(tasks, gtask{2, tm, T, R, c.Rng.Intn(3) == 0 && k < n, true, bs})
+			tm += int64(1 + c.Rng.Intn(200))
+		}
+		emit(c, n, nil, tasks)
+		c.Count("queue_wait_longer_than_T")
 	}
 	// 4. random multi-task scenarios
 	for i := 0; i < c.Budget(1600, 12000); i++ {
